@@ -285,7 +285,10 @@ impl Client {
         // Split TLS stream into reader and writer
         let (reader, mut writer) = tokio::io::split(tls_stream);
         tracing::trace!("[Client] Sending authentication");
-        send_authentication(&mut writer, &self.password_hash, &self.padding).await?;
+        // A scheme pushed by the server earlier replaces the configured one for every
+        // session opened afterwards (it is announced, so it is not pushed again).
+        let padding = PaddingFactory::effective(&self.padding);
+        send_authentication(&mut writer, &self.password_hash, &padding).await?;
         tracing::debug!("[Client] Authentication sent successfully");
 
         // Create session with reader and writer
@@ -296,7 +299,7 @@ impl Client {
         let session = Arc::new(Session::new_client(
             reader,
             writer,
-            self.padding.clone(),
+            padding,
             Some(heartbeat_config),
         ));
 
